@@ -92,10 +92,22 @@ class Run:
         # of the verification (the repository sources, every source file of
         # this framework, budget, options): a changed tree is a different key
         base = cache_base(self.repo, self.budget, opts, carves)
+        deps = ModuleDeps(self.repo)
+        bases = {}
+
+        def base_of(t):
+            # a function's result depends on its own module and the yatiml
+            # modules that module (transitively) imports; lemmas and facts
+            # depend on the framework only
+            if t not in bases:
+                bases[t] = base + '-' + (deps.digest(t.split('::')[0])
+                                         if '::' in t and t.startswith(
+                                             'yatiml/') else 'spec')
+            return bases[t]
         cached = {}
         for t in all_targets + (['<lemmas>'] if lemmas else []) + (
                 ['<facts>' + json.dumps(list(facts))] if facts else []):
-            r = cache_get(base, t)
+            r = cache_get(base_of(t), t)
             if r is not None:
                 cached[t] = r
         targets = [t for t in all_targets if t not in cached]
@@ -161,7 +173,7 @@ class Run:
                     'timing': {'symexec_s': 0, 'solve_s': 0}}
                 if clean and all(d['status'] == 'discharged' or
                                  d['cls'] == 'canary' for d in items):
-                    cache_put(base, k, part)
+                    cache_put(base_of(k), k, part)
             self.merge_result(r)
         return None, None
 
@@ -313,9 +325,59 @@ def tree_digest(root, sub, exts=('.py',)):
     return _DIGEST[key]
 
 
+class ModuleDeps:
+    """digest of a repository module together with the yatiml modules it
+    imports, transitively (the sources a verification result can depend on)"""
+
+    def __init__(self, repo):
+        self.repo = repo
+        self.cache = {}
+
+    def imports(self, rel):
+        path = os.path.join(self.repo, rel)
+        try:
+            with open(path) as f:
+                tree = ast.parse(f.read())
+        except (OSError, SyntaxError):
+            return set()
+        out = set()
+        for n in ast.walk(tree):
+            if isinstance(n, ast.ImportFrom) and n.module and \
+                    n.module.startswith('yatiml.'):
+                out.add(n.module.replace('.', '/') + '.py')
+            elif isinstance(n, ast.Import):
+                for a in n.names:
+                    if a.name.startswith('yatiml.'):
+                        out.add(a.name.replace('.', '/') + '.py')
+        return out
+
+    def closure(self, rel):
+        seen = set()
+        stack = [rel]
+        while stack:
+            r = stack.pop()
+            if r in seen:
+                continue
+            seen.add(r)
+            stack.extend(self.imports(r))
+        return sorted(seen)
+
+    def digest(self, rel):
+        if rel not in self.cache:
+            h = hashlib.sha256()
+            for r in self.closure(rel):
+                h.update(r.encode())
+                try:
+                    with open(os.path.join(self.repo, r), 'rb') as f:
+                        h.update(f.read())
+                except OSError:
+                    h.update(b'<missing>')
+            self.cache[rel] = h.hexdigest()[:16]
+        return self.cache[rel]
+
+
 def cache_base(repo, budget, opts, carves):
     h = hashlib.sha256()
-    h.update(tree_digest(repo, 'yatiml').encode())
     for sub in ('pyvc', 'spec', 'contracts'):
         h.update(tree_digest(VERIF, sub).encode())
     for f in ('checks/main.py', 'checks/worker.py'):
@@ -538,6 +600,11 @@ def finish(run, prop, t0, write_baseline=False):
                 # these carry their own validated witnesses
                 run.violations.append((it.group, path, bool(
                     it.witness.get('validated', True))))
+            elif '::escape:' in it.group and (
+                    it.function in base_digests) and base_groups:
+                # "no other exception escapes" held for this function on the
+                # pinned tree (no such path existed); now a path lets one out
+                run.violations.append((it.group, path, False))
             elif it.group in base_groups or not base_groups:
                 # passed on the pinned tree, fails now, no reproducing input
                 if base_groups:
